@@ -2,8 +2,8 @@
    Spec/TextSpec.v is the documented semantics (ascii, wide, nocase, fullword, xor); the extracted
    [text_matches] is compared with the real scanner on every run (checks/c01.py), and [cover_ok] is
    evaluated on the atoms decoded from every compiled image. Proofs: Proofs/TextProofs.v. *)
-From Coq Require Import List NArith Sorting.Sorted.
-From YV Require Import Base.Bytes Spec.TextSpec Model.Arena Model.Image Model.AC Model.TextAtoms Proofs.TextProofs Proofs.ACProofs.
+From Coq Require Import List NArith Sorting.Sorted Lia.
+From YV Require Import Base.Bytes Spec.TextSpec Model.Arena Model.Image Model.AC Model.TextAtoms Model.Verify Proofs.TextProofs Proofs.ACProofs Proofs.VerifyProofs.
 Import ListNotations.
 
 (* the reference the implementation is compared with reports each offset once, in ascending order,
@@ -40,8 +40,66 @@ Theorem atom_hits_reach_verifier : forall cr sidx a bt buf o,
              (N.of_nat (o + N.to_nat bt) - am_backtrack (pool_at cr mu) = N.of_nat o)%N.
 Proof. exact atom_hits_reach_verifier_proof. Qed.
 Print Assumptions atom_hits_reach_verifier.
-(* not proved here (correspondence only): that the verifier accepts exactly the occurrences among the
-   candidates (the compare functions of scan.c). *)
+(* ---- the verifier and the whole scan of one text string (Model/Verify.v: which comparison functions of scan.c run, in
+   which order and under which flags; the FITS_IN_ATOM shortcut; where the xor key comes from; the fullword test of the
+   match callback; the sorted match list).  [scan_string] runs the stored automaton over the buffer and verifies every hit
+   of the string.  Under per-image certificates (evaluated on every generated image by checks/c01.py) the matches it records
+   are exactly the documented occurrences. *)
+
+(* ascending offsets, each once: for every image, string, flags and buffer *)
+Theorem scan_text_sorted : forall cr sidx fl s fixed buf,
+  StronglySorted lt (map fst (scan_string cr sidx fl s fixed buf)).
+Proof. exact scan_string_sorted_proof. Qed.
+Print Assumptions scan_text_sorted.
+
+(* nothing else: every recorded (offset, length, key) is a documented occurrence.  text_certs: the flags stored in the image
+   agree with the declaration; for FITS_IN_ATOM strings every atom is a variant of a whole rendering and every variant is an
+   atom; for other xor strings every atom forces the key of any rendering the verifier may accept into the declared range. *)
+Theorem scan_text_sound : forall cr sidx fl s m buf o len key,
+  ac_cert cr = true -> all_bytes buf = true -> text_certs cr sidx fl s m = true ->
+  In (o, (len, key)) (scan_string cr sidx fl s None buf) -> In (len, key) (occs_at s m buf o).
+Proof. exact scan_string_sound_proof. Qed.
+Print Assumptions scan_text_sound.
+
+(* nothing missed: an offset with a documented occurrence has a recorded match.  complete_certs: atom coverage, the
+   FITS_IN_ATOM flag is set exactly for strings of at most YR_MAX_ATOM_LENGTH bytes, and a string whose ascii and wide forms
+   can both be accepted contains no NUL byte (with NUL bytes the two forms can overlap at one offset and the fullword test of
+   the form tried first decides). *)
+Theorem scan_text_complete : forall cr sidx fl s m buf o lk,
+  ac_cert cr = true -> all_bytes buf = true -> text_certs cr sidx fl s m = true -> complete_certs cr sidx fl s m = true ->
+  In lk (occs_at s m buf o) -> exists lk', In (o, lk') (scan_string cr sidx fl s None buf).
+Proof. exact scan_string_complete_proof. Qed.
+Print Assumptions scan_text_complete.
+
+(* the scan that the check runs (it carries the automaton state along, like the C loop) is the scan of the theorems *)
+Theorem scan_incremental_is_scan : forall cr sidx fl s fixed buf,
+  scan_string_inc cr sidx fl s fixed buf = scan_string cr sidx fl s fixed buf.
+Proof. exact scan_string_inc_eq. Qed.
+Print Assumptions scan_incremental_is_scan.
+
+(* The key certificate is not a technicality.  Without it the verifier is NOT sound: a hit of a genuine atom of the wide
+   form (bytes 8..11 of the wide rendering of "aaaaaaab" xored with key 1, backtrack 12) makes the verifier compare the
+   ASCII form and accept it with key 0, although the string is declared xor(1-3).  The same input makes the real scanner
+   report the match (known finding xor-key-outside-range). *)
+Theorem literal_verifier_sound_without_key_certificate_refuted :
+  exists fl s m v bt buf off lk,
+    flags_agree fl m = true /\ legal m = true /\ vf_fits fl = false /\
+    In v (window_variants m (slice (widen s) (N.to_nat bt - length v) (length v))) /\
+    atom_ends_at v buf (off + N.to_nat bt) /\
+    verify_literal fl s bt None buf off = Some lk /\ occs_at s m buf off = [].
+Proof.
+  exists {| vf_ascii := true; vf_wide := true; vf_nocase := false; vf_xor := true; vf_fullword := false; vf_fits := false |},
+         [97; 97; 97; 97; 97; 97; 97; 98]%N,
+         {| m_ascii := true; m_wide := true; m_nocase := false; m_fullword := false; m_xor := Some (1, 3)%N |},
+         [96; 1; 96; 1]%N, 12%N,
+         [97; 97; 97; 97; 97; 97; 97; 98; 96; 1; 96; 1]%N, 0%nat, (8, 0)%N.
+  vm_compute. repeat split; auto. lia.
+Qed.
+Print Assumptions literal_verifier_sound_without_key_certificate_refuted.
+
+(* not proved (correspondence only): base64 / base64wide strings (not modelled); that the compare loops of scan.c are the
+   functions match_ascii / match_wide of the model (checks/c01.py compares whole scans: offset, length and key must be EQUAL
+   to the model's, not just admissible). *)
 
 Example cover_and_occurrence :
   let m := {| m_ascii := true; m_wide := true; m_nocase := true; m_fullword := false; m_xor := None |} in
